@@ -42,8 +42,15 @@ class StartStagePlannerMixin:
             branch_outputs = [u.outputs for u in upstreams if u is not None and u.outputs]
             ancestor_outputs.update(apply_output_reducers(reducers, branch_outputs))
 
+        # Keys that an earlier planning of this stage inherited from its ancestors are not the
+        # stage's own context: when a jump_to loop re-arms the stage, the previous iteration's
+        # values must not shadow what the ancestors published in the current one.
+        inherited = set(stage.context.get("_inherited_keys") or ())
+        own_context = {k: v for k, v in stage.context.items() if k not in inherited and k != "_inherited_keys"}
+        inherited_now = sorted(k for k in ancestor_outputs if k not in own_context)
+
         merged = ancestor_outputs
-        for key, value in stage.context.items():
+        for key, value in own_context.items():
             if key in reducers:
                 # A reducer produced the authoritative value for this key;
                 # do not let the join stage's own context override it.
@@ -57,6 +64,8 @@ class StartStagePlannerMixin:
             else:
                 merged[key] = value
 
+        if inherited_now:
+            merged["_inherited_keys"] = inherited_now
         stage.context = merged
 
         # Get builder
